@@ -603,8 +603,17 @@ func c03(c *Ctx) {
 		var verVar types.Object
 		inspectNoLit(fn.Body(), func(nd ast.Node) bool {
 			if as, ok := nd.(*ast.AssignStmt); ok && len(as.Lhs) == 1 {
-				if v, ok := objOf(pinfo, as.Lhs[0]).(*types.Var); ok && v.Name() == "version" {
-					verVar = v
+				// the parsed version: an integer local defined as int(<byte array>[0]) — by shape, not by name
+				if v, ok := objOf(pinfo, as.Lhs[0]).(*types.Var); ok && len(as.Rhs) == 1 && verVar == nil {
+					if conv, isCall := unparen(as.Rhs[0]).(*ast.CallExpr); isCall && len(conv.Args) == 1 {
+						if tv, has := pinfo.Types[conv.Fun]; has && tv.IsType() {
+							if ie, isIdx := unparen(conv.Args[0]).(*ast.IndexExpr); isIdx {
+								if z, isC := constInt(pinfo, ie.Index); isC && z == 0 {
+									verVar = v
+								}
+							}
+						}
+					}
 				}
 			}
 			return true
